@@ -23,7 +23,7 @@ def run(ctx):
                            not extra_ids, "cases %s" % extra_ids[:40])
                 ctx.coverage["artifacts_not_covered"] = len(m)
                 if extra_ids:
-                    ctx.violations.append({"kind": "coq-cover-check", "sig": "literal cover cases %s" % extra_ids[:20],
+                    ctx.violations.append({"kind": "coq-cover-check", "static": True, "sig": "literal cover cases %s" % extra_ids[:20],
                                            "detail": {"failing_case_ids": extra_ids[:200]}})
             ctx.coverage["cover_unknown"] = len(res.get("U") or [])
     ctx.coverage["explanation"] = (
